@@ -361,4 +361,135 @@ theorem FlagClass.getCases_sub {c : FlagClass} {o : ListOpts} {s : FlagCase} (h 
   · exact h
   · exact FlagClass.nonCompound_sub h
 
+/-! ### the body of the list loader, characterised -/
+
+theorem filter_isNone_isEmpty (ml : List (String × FlagCase)) (items : List Atom) :
+    (items.filter (fun i => (lookupItem ml i).isNone)).isEmpty =
+      items.all (fun i => (lookupItem ml i).isSome) := by
+  induction items with
+  | nil => rfl
+  | cons i t ih => cases h : lookupItem ml i <;> simp [h, ih]
+
+theorem listLoadItems_eq (o : ListOpts) (ml : List (String × FlagCase)) (items : List Atom) :
+    listLoadItems o ml items =
+      if !o.allowDuplicates && !items.all Atom.hashable then .escape "TypeError"
+      else if !o.allowDuplicates && hasDuplicates items then .loadErr .duplicatedValues
+      else if items.all (fun i => (lookupItem ml i).isSome) then
+        .ok (orAll ((items.filterMap (lookupItem ml)).map (·.bits)))
+      else .loadErr (.multipleBadVariant (ml.map (·.1))
+        (items.filter (fun i => (lookupItem ml i).isNone))) := by
+  unfold listLoadItems
+  rw [listLoadLoop_eq]
+  simp only [List.nil_append, Nat.zero_or, filter_isNone_isEmpty]
+
+theorem Outcome.ok_eq_iff {α : Type} (a v : α) : (Outcome.ok a = Outcome.ok v) ↔ v = a := by
+  constructor
+  · intro h; injection h with h; exact h.symm
+  · intro h; rw [h]
+
+theorem listLoadItems_ok_iff (o : ListOpts) (ml : List (String × FlagCase)) (items : List Atom) (v : Nat) :
+    listLoadItems o ml items = .ok v ↔
+      (o.allowDuplicates = true ∨ (items.all Atom.hashable = true ∧ hasDuplicates items = false)) ∧
+      (∀ i ∈ items, (lookupItem ml i).isSome = true) ∧
+      v = orAll ((items.filterMap (lookupItem ml)).map (·.bits)) := by
+  rw [listLoadItems_eq]
+  have hall : (∀ i ∈ items, (lookupItem ml i).isSome = true) ↔
+      items.all (fun i => (lookupItem ml i).isSome) = true := by
+    rw [List.all_eq_true]
+  rw [hall]
+  cases o.allowDuplicates <;> cases items.all Atom.hashable <;> cases hasDuplicates items <;>
+    cases items.all (fun i => (lookupItem ml i).isSome) <;> simp <;> exact eq_comm
+
+/-- the loader never lets another exception out, except `TypeError` from `set()` on
+    unhashable items when duplicates are forbidden (recorded under C04) -/
+theorem listLoadItems_total (o : ListOpts) (ml : List (String × FlagCase)) (items : List Atom)
+    (h : o.allowDuplicates = true ∨ items.all Atom.hashable = true) :
+    (∃ v, listLoadItems o ml items = .ok v) ∨ ∃ e, listLoadItems o ml items = .loadErr e := by
+  rw [listLoadItems_eq]
+  have h1 : (!o.allowDuplicates && !items.all Atom.hashable) = false := by
+    rcases h with h | h <;> simp [h]
+  rw [h1]
+  simp only [Bool.false_eq_true, if_false]
+  split
+  · exact Or.inr ⟨_, rfl⟩
+  · split
+    · exact Or.inl ⟨_, rfl⟩
+    · exact Or.inr ⟨_, rfl⟩
+
+/-- all lookups succeed and yield `cs`, as one equation -/
+theorem map_lookup_eq_iff (ml : List (String × FlagCase)) (items : List Atom) (cs : List FlagCase) :
+    items.map (lookupItem ml) = cs.map some ↔
+      (∀ i ∈ items, (lookupItem ml i).isSome = true) ∧ items.filterMap (lookupItem ml) = cs := by
+  induction items generalizing cs with
+  | nil =>
+    cases cs with
+    | nil => simp
+    | cons c cs' => simp
+  | cons i t ih =>
+    cases cs with
+    | nil =>
+      simp only [List.map_cons, List.map_nil, List.filterMap_cons]
+      constructor
+      · intro h; cases h
+      · rintro ⟨h1, h2⟩
+        have := h1 i (by simp)
+        cases hl : lookupItem ml i with
+        | none => simp [hl] at this
+        | some c => simp [hl] at h2
+    | cons c cs' =>
+      simp only [List.map_cons, List.cons.injEq, List.filterMap_cons, ih cs']
+      constructor
+      · rintro ⟨h1, h2, h3⟩
+        refine ⟨?_, by simp [h1, h3]⟩
+        intro j hj
+        rcases List.mem_cons.1 hj with hj | hj
+        · subst hj; simp [h1]
+        · exact h2 j hj
+      · rintro ⟨h1, h2⟩
+        have hi := h1 i (by simp)
+        cases hl : lookupItem ml i with
+        | none => simp [hl] at hi
+        | some c0 =>
+          simp only [hl, List.cons.injEq] at h2
+          exact ⟨by rw [h2.1], fun j hj => h1 j (List.mem_cons_of_mem _ hj), h2.2⟩
+
+section Names
+variable {cfg : NameCfg} {cases0 : List FlagCase} {ml : List (String × FlagCase)}
+
+/-- under an injective name mapping: the lookups of `items` yield `cs` iff the items are,
+    one by one, the mapped names of the cases `cs` -/
+theorem map_lookup_eq_names (hml : genForLoading FlagCase.name cfg cases0 = some ml)
+    (hinj : InjectiveOn FlagCase.name cfg cases0) (items : List Atom) (cs : List FlagCase) :
+    items.map (lookupItem ml) = cs.map some ↔
+      (∀ c ∈ cs, c ∈ cases0) ∧
+      cs.map (fun c => (cfg.mapped c.name).map Atom.str) = items.map some := by
+  induction items generalizing cs with
+  | nil => cases cs <;> simp
+  | cons i t ih =>
+    cases cs with
+    | nil => simp
+    | cons c cs' =>
+      simp only [List.map_cons, List.cons.injEq, ih cs', List.mem_cons, forall_eq_or_imp]
+      constructor
+      · rintro ⟨h1, h2, h3⟩
+        unfold lookupItem at h1
+        cases hk : i.strKey with
+        | none => simp [hk] at h1
+        | some s =>
+          simp only [hk, Option.bind_some] at h1
+          obtain ⟨hmem, hmapped⟩ := genForLoading_get_some FlagCase.name cfg hml h1
+          refine ⟨⟨hmem, h2⟩, ?_, h3⟩
+          rw [hmapped, Atom.strKey_eq_some hk]; rfl
+      · rintro ⟨⟨h1, h2⟩, h3, h4⟩
+        refine ⟨?_, h2, h4⟩
+        cases hm : cfg.mapped c.name with
+        | none => simp [hm] at h3
+        | some s =>
+          simp only [hm, Option.map_some, Option.some.injEq] at h3
+          subst h3
+          simp [lookupItem, Atom.strKey,
+            genForLoading_get_of_injective FlagCase.name cfg hml hinj h1 hm]
+
+end Names
+
 end Adaptix.Enum
